@@ -88,7 +88,7 @@ def run(ctx):
         r = ctx.tlc("mc/MC_SharedHandles.tla", "mc/SharedHandles_%s_TRUE.cfg" % sc, workers=4, coverage=(sc == "Mixed"))
         ctx.tlc_must_pass(r, "SharedHandles intended %s" % sc)
         if sc == "Mixed":
-            ctx.require_coverage(r, ["DropCS", "CopyCS", "CountRead"])
+            ctx.require_coverage(r, ["DropCS", "CopyCS", "ChildCS", "CountRead"])
         r2 = ctx.tlc("mc/MC_SharedHandles.tla", "mc/SharedHandles_%s_FALSE.cfg" % sc, workers=4)
         if r2.rc not in (0, 12):
             raise Broken("as-implemented model run failed: %s" % tail(r2.out, 20))
@@ -105,7 +105,7 @@ def run(ctx):
     intended = {}
     for sc in use:
         g = ctx.tlc("mc/MC_SharedHandles.tla", "mc/SharedHandles_%s_gen_TRUE.cfg" % sc, workers=1)
-        intended[sc] = {(x["d"], x["b"]) for x in b_json(g)}
+        intended[sc] = {(x["d"], x["b"], x["ch"]) for x in b_json(g)}
         if not intended[sc]:
             raise Broken("no intended outcomes for %s" % sc)
         g = ctx.tlc("mc/MC_SharedHandles.tla", "mc/SharedHandles_%s_gen_FALSE.cfg" % sc, workers=2, timeout=2400)
@@ -146,9 +146,14 @@ def run(ctx):
         net = x["net"]
         bytes_obs = o["bytes"] + (OBJ_BYTES if runs >= 1 else 0)
         ok_outcomes = intended[sc]
-        if (min(runs, 9), net) in ok_outcomes and bytes_obs == net:
+        # the shared object's own buffer leaves the device's ring when the object is destroyed
+        children_obs = o.get("children", 0) + (1 if runs >= 1 else 0)
+        if (min(runs, 9), net, children_obs) in ok_outcomes and bytes_obs == net:
             conform += 1
             continue
+        if children_obs != x["netch"]:
+            ctx.mismatch("lost-reference:device-child-ring@%s" % sc,
+                         "scenario %s: the device tracks %d buffers at quiescence, the model says %d; schedule %s" % (sc, children_obs, x["netch"], x["sched"]), replay)
         if runs >= 2:
             if x["d"] >= 2:
                 known_shape += 1
@@ -174,6 +179,7 @@ def run(ctx):
     os.makedirs(logdir, exist_ok=True)
     stress_runs = 0
     died = []
+    miscounts = []
     for k, (threads, iters) in enumerate(plans):
         env = ctx.occa_env(lib)
         env["TSAN_OPTIONS"] = "log_path=%s/tsan:exitcode=0:halt_on_error=0:history_size=4:second_deadlock_stack=1" % logdir
@@ -187,17 +193,33 @@ def run(ctx):
             died.append((threads, rc, out[-400:], rep))
             continue
         res = json.load(open(outp))
+        if res.get("phase") == "AC":
+            # the process died in the last phase (simultaneous last-handle drops): the reason is in the sanitizer
+            # log; what the earlier phases observed was checkpointed
+            died.append((threads, rc, out[-400:], rep))
+            res["liveMemory"] = res["liveBuffer"] = res["sharedAlive"]
         if res["anomalies"] > 0:
             ctx.mismatch("double-destroy:check-then-delete-outside-lock", "stress %d threads: %d destructor runs on dead objects" % (threads, res["anomalies"]), rep)
         if res["liveMemory"] != res["sharedAlive"] or res["liveBuffer"] != res["sharedAlive"]:
             ctx.mismatch("leak-or-lost-reference:stress", "stress %d threads: live memory objects %d / buffers %d, expected %d" % (threads, res["liveMemory"], res["liveBuffer"], res["sharedAlive"]), rep)
+        if res.get("lostChildren", 0) != 0 or res.get("survivors", 0) != 0:
+            ctx.mismatch("lost-reference:device-child-ring:stress",
+                         "stress %d threads: a shared device lost track of %d buffers created on it concurrently; %d handles survived device.free()" % (threads, res.get("lostChildren", 0), res.get("survivors", 0)), rep)
         if res["bytes"] != res["expected"]:
-            ctx.mismatch("miscount:stress", "stress %d threads: memoryAllocated off by %d at quiescence" % (threads, res["bytes"] - res["expected"]), rep)
+            miscounts.append((threads, res["bytes"] - res["expected"], rep))
     races = race_signatures(logdir)
     if died and not any(k.startswith(("double-destroy", "tsan:")) for k in races):
         t, rc, out, rep = died[0]
         ctx.mismatch("stress-crash:no-report", "stress run with %d threads died (rc=%s) without a sanitizer report: %s" % (t, rc, out), rep)
     ctx.cov["stress_runs_died"] = len(died)
+    for (threads, off, rep) in miscounts:
+        # a lost update of bytesAllocated is the visible effect of the unsynchronised counter: when the race
+        # detector reported that race in the same batch of runs it is the same finding, otherwise its own
+        if "race:bytesAllocated-unsynchronised" in races:
+            ctx.mismatch("race:bytesAllocated-unsynchronised", "stress %d threads: memoryAllocated off by %d at quiescence (lost update of the unsynchronised counter, race reported by ThreadSanitizer in the same runs)" % (threads, off), rep)
+        else:
+            ctx.mismatch("miscount:stress", "stress %d threads: memoryAllocated off by %d at quiescence and no race on the counter was reported" % (threads, off), rep)
+    ctx.cov["stress_runs_miscounting"] = len(miscounts)
     for sig, text in sorted(races.items()):
         ctx.mismatch(sig, "ThreadSanitizer: " + " ".join(text.split())[:700], [{"tsan_report": text}])
     ctx.cov.update({"stress_runs": stress_runs, "tsan_report_signatures": sorted(races)})
